@@ -289,6 +289,18 @@ class FiniteEval:
             else:
                 self.run(s.orelse, env)
             return
+        if isinstance(s, ast.Assign) and len(s.targets) == 1 and isinstance(s.targets[0], (ast.Tuple, ast.List)) and isinstance(s.value, (ast.Tuple, ast.List)) \
+                and len(s.targets[0].elts) == len(s.value.elts) and all(isinstance(e, ast.Name) for e in s.targets[0].elts):
+            # a, b = x, y : all right-hand sides are evaluated first
+            vals = [self.ev(e, env) for e in s.value.elts]
+            for tgt, val, src in zip(s.targets[0].elts, vals, s.value.elts):
+                one = ast.Assign(targets=[ast.Name(id=tgt.id, ctx=ast.Store())], value=src)
+                ast.copy_location(one, s)
+                if tgt.id in self.counters:
+                    self.stmt(one, env)
+                else:
+                    env[tgt.id] = val
+            return
         if isinstance(s, ast.Assign) and len(s.targets) == 1 and isinstance(s.targets[0], ast.Name):
             name = s.targets[0].id
             try:
